@@ -404,6 +404,9 @@ fn exec(op: &IoOp, src_w: &Wrap, dst_w: &Wrap, selftest: bool) -> Exec {
                 b.set_intent(BuilderIntent::Create(DigitalSourceType::Empty));
                 b.sign(sdk::signer("ed25519").as_ref(), &op.format, &mut s, &mut d)?;
                 drop(d);
+                if let Ok(p) = std::env::var("VERIF_C35_DUMP") {
+                    let _ = std::fs::write(format!("{p}-{}", stats.fired()), dst.contents());
+                }
                 Ok(res_of_output(&op.format, &dst.contents(), None))
             }
             "read" => {
@@ -519,11 +522,19 @@ struct ChunkCase {
     seed: u64,
 }
 
-/// Container label for signatures: the fixture's file extension ("signed:x.mp3|audio/mpeg" -> "mp3").
+/// Handler label for signatures, from the fixture's file extension ("signed:x.mp3|audio/mpeg" -> "mp3", "x.avif" -> "bmff").
 fn ext_label(op: &IoOp) -> String {
     let f = op.file.split('|').next().unwrap_or(&op.file);
     let f = f.rsplit(':').next().unwrap_or(f);
-    f.rsplit('.').next().unwrap_or("x").to_lowercase()
+    let ext = f.rsplit('.').next().unwrap_or("x").to_lowercase();
+    // one label per format handler of the SDK
+    match ext.as_str() {
+        "mp4" | "mov" | "heic" | "heif" | "avif" | "m4a" => "bmff".to_string(),
+        "webp" | "wav" | "avi" => "riff".to_string(),
+        "jpg" | "jpeg" => "jpeg".to_string(),
+        "tif" | "tiff" => "tiff".to_string(),
+        _ => ext,
+    }
 }
 
 fn judge_chunk(run: &Run, c: &ChunkCase, selftest: bool) -> CaseResult {
@@ -763,7 +774,7 @@ fn main() {
     vh::quiet_panics();
     let run = Run::from_args("C35", "fault_enumeration");
     let selftest = std::env::var("VERIF_SELFTEST").ok().as_deref() == Some("1");
-    run.set_rule("operations = {sign, read (asset signed by the harness + repository fixtures), add_ingredient_from_stream, placeholder->update_hash_from_stream->sign_embeddable} over the writable fixture formats, always with the correct format hint. (a) every operation with its source / destination / both streams wrapped in Chunky with max piece 1,2,3,7 and a seeded random maximum; (b) a Counting/Faulty dry run gives the fault-free number N of I/O calls (read+write+seek+flush) on the wrapped stream; cases = every k<N up to a bound, then one k per stratum of the rest plus the last 4 calls (quick: k<300 + 24 strata for assets <= 300 KB, k<40 + 12 strata for larger ones; thorough: k<4000 + 400 strata, larger assets k<1000 + 200 strata; for larger assets additionally the one-shot Other error at every k<400 of sign sources in quick / every k<12000 of every stream in thorough) x {Other, UnexpectedEof, Interrupted, WriteZero, Ok(0), sticky Other, sticky Ok(0)} on the source, the destination or the ingredient / hashed stream. Non-trivial = the fault fired at call index >= 2 (beyond the sniffing read); chunk cases with pieces <= 3 bytes.");
+    run.set_rule("operations = {sign, read (asset signed by the harness + repository fixtures), add_ingredient_from_stream, placeholder->update_hash_from_stream->sign_embeddable} over the writable fixture formats, always with the correct format hint. (a) every operation with its source / destination / both streams wrapped in Chunky with max piece 1,2,3,7 and a seeded random maximum; (b) a Counting/Faulty dry run gives the fault-free number N of I/O calls (read+write+seek+flush) on the wrapped stream; cases = every k<N up to a bound, then one k per stratum of the rest plus the last 4 calls (quick: k<300 + 24 strata for assets <= 300 KB, k<40 + 12 strata for larger ones; thorough: k<4000 + 400 strata, larger assets k<1000 + 200 strata; for larger assets additionally the one-shot Other error at every k<400 of sign sources in quick / every k<12000 of every stream in thorough) x {Other, UnexpectedEof, Interrupted, WriteZero, Ok(0), sticky Other, sticky Ok(0) (thorough only)} on the source, the destination or the ingredient / hashed stream. Operations on sources that already carry a manifest (re-sign with Create intent, jumbf_io::save_jumbf_to_stream writing the asset's own store again, jumbf_io::load_jumbf_from_stream) run on harness-signed small instances of all 16 containers from vh::assets::synth_default (quick: 13) and on the small real fixtures, with one-shot {Other, UnexpectedEof, Interrupted, Ok(0)} at EVERY k (k<1500 quick, k<12000 thorough). Non-trivial = the fault fired at call index >= 2 (beyond the sniffing read); chunk cases with pieces <= 3 bytes.");
     run.assume("equality with the fault-free result is judged on (validation state + all status codes of the read-back with a plain cursor, cross-run normalised report, output size, output bytes after the SDK's own manifest removal); reads: state + codes + same-bytes report");
     run.assume("a one-shot or sticky Ok(0) from read is an end-of-file, not an error: a differing Ok result is a failure only for reads/imports that are Valid/Trusted; signing the truncated view is recorded, not judged");
     run.assume("the number and order of I/O calls of an operation is deterministic (a planned call that is not reached is counted fault_not_fired and not judged)");
@@ -814,6 +825,9 @@ fn main() {
     // real fixtures.
     let mut presigned: Vec<(String, String)> = vec![];
     for kind in vh::assets::KINDS {
+        if quick && matches!(*kind, "mov" | "m4a" | "heic") {
+            continue; // same handler and box layout as mp4 / avif; thorough runs them
+        }
         let (mime, _) = vh::assets::kind_format(kind);
         presigned.push((mime.to_string(), format!("signed:synth:{kind}|{mime}")));
     }
@@ -914,6 +928,8 @@ fn main() {
         FaultPlan::nth(0, FaultKind::Other).sticky(),
         FaultPlan::nth(0, FaultKind::ShortZero).sticky(),
     ];
+    // quick leaves the permanently truncated stream (sticky Ok(0)) to thorough
+    let kinds: Vec<FaultPlan> = kinds.into_iter().filter(|p| !(quick && p.sticky && p.kind == FaultKind::ShortZero)).collect();
     let mut counts = serde_json::Map::new();
     let mut fcases = vec![];
     // (every k up to, stratified sample beyond) for assets <= 300 KB and for larger ones
